@@ -28,11 +28,17 @@ theorem inYear_range {y p : Int} (hy : 0 ≤ y ∧ y ≤ 20000) (hp : yearStart 
   omega
 
 theorem apply_inst {ds : DateSpec} {o : DateOffset} (h : BoundOK ds o) {y : Int} {after : Bool} {p : Int}
-    (hy : 0 ≤ y ∧ y ≤ 20000) (hp : dateInstance ds y after = some p) : o.apply p = .ok (shift o p) := by
+    (_hy : 0 ≤ y ∧ y ≤ 20000) (_hp : dateInstance ds y after = some p) : o.apply p = .ok (shift o p) :=
+  apply_eq_shift o h.owf p
+
+/-- with a small offset, an instance of the years 0 … 20 000 is shifted without saturation -/
+theorem inst_shift_bounds {ds : DateSpec} {o : DateOffset} (h : BoundOK ds o) {y : Int} {after : Bool} {p : Int}
+    (hy : 0 ≤ y ∧ y ≤ 20000) (hp : dateInstance ds y after = some p) :
+    p + o.days - 6 ≤ shift o p ∧ shift o p ≤ p + o.days + 6 := by
   have hin := dateInstance_year ds y after h.wf hy.1 (by unfold maxYear; omega) p hp
   have := inYear_range hy hin
   have hs := h.small
-  exact apply_eq_shift o p h.owf (by omega) (by rw [minDay_eq]; omega) (by rw [maxDay_eq]; omega)
+  exact shift_bounds o p (by omega) (by rw [minDay_eq]; omega) (by rw [maxDay_eq]; omega)
 
 /-- the shifted instance of a bound on a year, if any -/
 def proj (ds : DateSpec) (o : DateOffset) (after : Bool) (y : Int) : Option Int :=
@@ -116,44 +122,77 @@ theorem inY_le_of_lt {a b p q : Int} (hp : InY a p) (hq : InY b q) (h : p < q) :
 
 /-! ### class (c): both bounds without a year — the window `y-1 … y+1` against all candidate years -/
 
+/-- The window `y-2 … y+2` is adequate for day `d` (of year `y`) and the projections `S`, `E` of the two
+bounds on the years `y-w … y+w` the specification looks at:
+ * successive projections increase;
+ * the start projected on `y+2` is after `d`;
+ * the end projected on `y+3` is not before `d`;
+ * some start of the window is at or before `d` and after the end projected on `y-3` (then so is the
+   latest start at or before `d`). -/
+structure WindowOK (S E : Int → Int) (y d : Int) (w : Nat) : Prop where
+  monoS : ∀ k, y - w ≤ k → k < y + w → S k < S (k + 1)
+  monoE : ∀ k, y - w ≤ k → k < y + w → E k < E (k + 1)
+  w1 : d < S (y + 2)
+  w3 : d ≤ E (y + 3)
+  w4 : ∃ k0, y - 2 ≤ k0 ∧ k0 ≤ y + 1 ∧ S k0 ≤ d ∧ E (y - 3) < S k0
+
+theorem mono_of_step (F : Int → Int) (lo hi : Int) (h : ∀ k, lo ≤ k → k < hi → F k < F (k + 1))
+    (a b : Int) (ha : lo ≤ a) (hab : a ≤ b) (hb : b ≤ hi) : F a ≤ F b ∧ (a < b → F a < F b) := by
+  obtain ⟨n, rfl⟩ : ∃ n : Nat, b = a + n := ⟨(b - a).toNat, by omega⟩
+  induction n with
+  | zero => simp
+  | succ n ih =>
+    have ih' := ih (by omega) (by omega)
+    have st := h (a + n) (by omega) (by omega)
+    rw [show a + ((n + 1 : Nat) : Int) = a + n + 1 by omega]
+    constructor
+    · omega
+    · intro _; omega
+
 /-- The pairing of the projections on the years `y-2 … y+2` selects the same days as "some start
 instance at or before `d`, on any of the years `y-w … y+w`, has no end instance between it and `d`" —
-provided every shifted instance stays inside the year it is taken on. -/
-theorem window_pair_iff (S E : Int → Int) (y d : Int) (w : Nat) (hw : 2 ≤ w) (hd : InY y d)
-    (hS : ∀ k, y - w ≤ k → k ≤ y + w → InY k (S k))
-    (hE : ∀ k, y - w ≤ k → k ≤ y + w → InY k (E k)) :
+provided the window is adequate (`WindowOK`). -/
+theorem window_pair_iff (S E : Int → Int) (y d : Int) (w : Nat) (hw : 3 ≤ w) (ok : WindowOK S E y d w) :
     PairSpec [S (y - 2), S (y - 1), S y, S (y + 1), S (y + 2)]
         [E (y - 2), E (y - 1), E y, E (y + 1), E (y + 2)] d ↔
       ∃ k, y - w ≤ k ∧ k ≤ y + w ∧ S k ≤ d ∧ ∀ j, y - w ≤ j → j ≤ y + w → ¬ (S k ≤ E j ∧ E j < d) := by
-  have sm1 := hS (y - 1) (by omega) (by omega)
-  have sp2 := hS (y + 2) (by omega) (by omega)
-  have hgt : d < S (y + 2) := inY_lt (by omega) hd sp2
+  have mS := mono_of_step S (y - w) (y + w) ok.monoS
+  have mE := mono_of_step E (y - w) (y + w) ok.monoE
+  have hgt := ok.w1
   unfold PairSpec
   simp only [List.mem_cons, List.not_mem_nil, or_false, exists_eq_or_imp, forall_eq_or_imp, exists_eq_left,
     forall_eq]
   constructor
   · rintro (h | h)
-    · -- some window start qualifies
+    · -- some window start qualifies; the later of it and `k0` qualifies on all candidate years
+      obtain ⟨k0, hk0a, hk0b, hk0le, hk0e⟩ := ok.w4
       have key : ∀ k, (k = y - 2 ∨ k = y - 1 ∨ k = y ∨ k = y + 1 ∨ k = y + 2) → S k ≤ d →
           (¬ (S k ≤ E (y - 2) ∧ E (y - 2) < d) ∧ ¬ (S k ≤ E (y - 1) ∧ E (y - 1) < d) ∧
             ¬ (S k ≤ E y ∧ E y < d) ∧ ¬ (S k ≤ E (y + 1) ∧ E (y + 1) < d) ∧
             ¬ (S k ≤ E (y + 2) ∧ E (y + 2) < d)) →
           ∃ k, y - w ≤ k ∧ k ≤ y + w ∧ S k ≤ d ∧ ∀ j, y - w ≤ j → j ≤ y + w → ¬ (S k ≤ E j ∧ E j < d) := by
         intro k hk hle hno
-        refine ⟨k, by omega, by omega, hle, fun j hj1 hj2 => ?_⟩
-        have sk := hS k (by omega) (by omega)
-        have ej := hE j hj1 hj2
+        -- k' = max k k0
+        obtain ⟨k', hk'1, hk'2, hk'le, hkk', hk0k'⟩ : ∃ k', y - 2 ≤ k' ∧ k' ≤ y + 2 ∧ S k' ≤ d ∧ S k ≤ S k' ∧ S k0 ≤ S k' := by
+          by_cases hc : k ≤ k0
+          · exact ⟨k0, hk0a, by omega, hk0le, (mS k k0 (by omega) hc (by omega)).1, Int.le_refl _⟩
+          · exact ⟨k, by omega, by omega, hle, Int.le_refl _, (mS k0 k (by omega) (by omega) (by omega)).1⟩
+        refine ⟨k', by omega, by omega, hk'le, fun j hj1 hj2 => ?_⟩
         by_cases hj : j < y - 2
-        · have := inY_lt (show j < k by omega) ej sk; omega
+        · -- an end of an earlier year lies before the start `k0`
+          have a := (mE j (y - 3) hj1 (by omega) (by omega)).1
+          omega
         · by_cases hj' : y + 2 < j
-          · have := inY_lt (show y < j by omega) hd ej; omega
+          · have a := (mE (y + 3) j (by omega) (by omega) hj2).1
+            have := ok.w3
+            omega
           · have : j = y - 2 ∨ j = y - 1 ∨ j = y ∨ j = y + 1 ∨ j = y + 2 := by omega
             rcases this with rfl | rfl | rfl | rfl | rfl
-            · exact hno.1
-            · exact hno.2.1
-            · exact hno.2.2.1
-            · exact hno.2.2.2.1
-            · exact hno.2.2.2.2
+            · have := hno.1; omega
+            · have := hno.2.1; omega
+            · have := hno.2.2.1; omega
+            · have := hno.2.2.2.1; omega
+            · have := hno.2.2.2.2; omega
       rcases h with ⟨h1, h2⟩ | ⟨h1, h2⟩ | ⟨h1, h2⟩ | ⟨h1, h2⟩ | ⟨h1, h2⟩
       · exact key (y - 2) (by omega) h1 h2
       · exact key (y - 1) (by omega) h1 h2
@@ -164,25 +203,40 @@ theorem window_pair_iff (S E : Int → Int) (y d : Int) (w : Nat) (hw : 2 ≤ w)
       omega
   · rintro ⟨k, hk1, hk2, hle, hno⟩
     left
-    have sk := hS k hk1 hk2
-    have hky : k ≤ y := by
-      by_cases h : y < k
-      · have := inY_lt h hd sk; omega
+    have hky : k ≤ y + 1 := by
+      by_cases h : y + 1 < k
+      · have := (mS (y + 2) k (by omega) (by omega) hk2).1; omega
       · omega
     have n0 := hno (y - 2) (by omega) (by omega)
     have n1 := hno (y - 1) (by omega) (by omega)
     have n2 := hno y (by omega) (by omega)
     have n3 := hno (y + 1) (by omega) (by omega)
     have n4 := hno (y + 2) (by omega) (by omega)
-    by_cases hk : k = y
-    · subst hk; right; right; left; exact ⟨hle, n0, n1, n2, n3, n4⟩
-    · by_cases hk' : k = y - 1
-      · subst hk'; right; left; exact ⟨hle, n0, n1, n2, n3, n4⟩
-      · -- an earlier start: the start of year y-1 lies between it and d
-        right; left
-        have h1 : S k < S (y - 1) := inY_lt (by omega) sk sm1
-        have h2 : S (y - 1) < d := inY_lt (by omega) sm1 hd
-        refine ⟨by omega, by omega, by omega, by omega, by omega, by omega⟩
+    by_cases hk : k < y - 2
+    · -- an earlier start: the start of year y-2 lies between it and d
+      left
+      have h1 := (mS k (y - 2) hk1 (by omega) (by omega)).1
+      obtain ⟨k0, hk0a, hk0b, hk0le, _⟩ := ok.w4
+      have h2 : S (y - 2) ≤ d := by have := (mS (y - 2) k0 (by omega) hk0a (by omega)).1; omega
+      refine ⟨h2, by omega, by omega, by omega, by omega, by omega⟩
+    · have : k = y - 2 ∨ k = y - 1 ∨ k = y ∨ k = y + 1 := by omega
+      rcases this with rfl | rfl | rfl | rfl
+      · left; exact ⟨hle, n0, n1, n2, n3, n4⟩
+      · right; left; exact ⟨hle, n0, n1, n2, n3, n4⟩
+      · right; right; left; exact ⟨hle, n0, n1, n2, n3, n4⟩
+      · right; right; right; left; exact ⟨hle, n0, n1, n2, n3, n4⟩
+
+/-- year-locality (every projection stays in the year it is taken on) makes the window adequate -/
+theorem windowOK_of_inY (S E : Int → Int) (y d : Int) (w : Nat) (hw : 3 ≤ w) (hd : InY y d)
+    (hS : ∀ k, y - w ≤ k → k ≤ y + w → InY k (S k))
+    (hE : ∀ k, y - w ≤ k → k ≤ y + w → InY k (E k)) : WindowOK S E y d w where
+  monoS := fun k a b => inY_lt (by omega) (hS k a (by omega)) (hS (k + 1) (by omega) (by omega))
+  monoE := fun k a b => inY_lt (by omega) (hE k a (by omega)) (hE (k + 1) (by omega) (by omega))
+  w1 := inY_lt (by omega) hd (hS (y + 2) (by omega) (by omega))
+  w3 := by have := inY_lt (show y < y + 3 by omega) hd (hE (y + 3) (by omega) (by omega)); omega
+  w4 := ⟨y - 2, by omega, by omega,
+    by have := inY_lt (show y - 2 < y by omega) (hS (y - 2) (by omega) (by omega)) hd; omega,
+    inY_lt (by omega) (hE (y - 3) (by omega) (by omega)) (hS (y - 2) (by omega) (by omega))⟩
 
 /-! ### class (c), concretely -/
 
@@ -257,33 +311,33 @@ theorem candidateYears_yearless (s e : DateSpec) (w : Nat) (d : Int) (hs : specY
     (he : specYear e = none) : candidateYears s e w d = yearsNear (year d) w := by
   unfold candidateYears; rw [hs, he]; simp
 
+/-- the shifted instance of a bound on a year (0 where there is none: never the case for a well-formed
+date without a year on the years 0 … 20 000) -/
+def projT (ds : DateSpec) (o : DateOffset) (after : Bool) (k : Int) : Int := (proj ds o after k).getD 0
+
 /-- Class (c): a dated range whose two bounds carry no year (and that is not a single fixed day):
-the model's filter is the specification's `datedOk` on every day of 1899-12-31 … 9999-12-31 around
-which the shifted bounds stay inside their years. -/
+the model's filter is the specification's `datedOk` on every day of 1899-12-31 … 9999-12-31 for which
+the window `y-2 … y+2` is adequate (`WindowOK`). -/
 theorem dated_yearless_eq (s : DateSpec) (so : DateOffset) (e : DateSpec) (eo : DateOffset) (d : Int)
     (hs : BoundOK s so) (he : BoundOK e eo) (hsy : specYear s = none) (hey : specYear e = none)
     (hns : ¬ (s = e ∧ isFixedDate s = true)) (h1 : dateStart - 1 ≤ d) (h2 : d < dateEnd)
-    (hS : StaysInYear s so true (year d) (yearSpan so eo))
-    (hE : StaysInYear e eo false (year d) (yearSpan so eo)) :
+    (hW : WindowOK (projT s so true) (projT e eo false) (year d) d (yearSpan so eo)) :
     MonthdayRange.filter (.date s so e eo) d = .ok (datedOk s so e eo d) := by
   have hy : 1899 ≤ year d ∧ year d ≤ 9999 := year_window h1 h2
   have hw := yearSpan_bounds so eo hs.small he.small
   generalize hwdef : yearSpan so eo = w at *
   generalize hydef : year d = y at *
-  have hd : InY y d := by rw [← hydef]; exact inY_year d
   -- total projections
-  let S : Int → Int := fun k => (proj s so true k).getD 0
-  let E : Int → Int := fun k => (proj e eo false k).getD 0
+  generalize hSdef : projT s so true = S at hW
+  generalize hEdef : projT e eo false = E at hW
   have pS : ∀ k, y - w ≤ k → k ≤ y + w → proj s so true k = some (S k) := by
     intro k hk1 hk2
     obtain ⟨p, hp⟩ := proj_some_yearless s so true hs.wf hsy k (by omega)
-    simp only [S, hp, Option.getD_some]
+    simp only [← hSdef, projT, hp, Option.getD_some]
   have pE : ∀ k, y - w ≤ k → k ≤ y + w → proj e eo false k = some (E k) := by
     intro k hk1 hk2
     obtain ⟨p, hp⟩ := proj_some_yearless e eo false he.wf hey k (by omega)
-    simp only [E, hp, Option.getD_some]
-  have iS : ∀ k, y - w ≤ k → k ≤ y + w → InY k (S k) := fun k a b => hS k a b _ (pS k a b)
-  have iE : ∀ k, y - w ≤ k → k ≤ y + w → InY k (E k) := fun k a b => hE k a b _ (pE k a b)
+    simp only [← hEdef, projT, hp, Option.getD_some]
   -- the model
   have hys : ∀ k ∈ [y - 2, y - 1, y, y + 1, y + 2], (0 ≤ k ∧ k ≤ 20000) := by
     intro k hk; simp only [List.mem_cons, List.not_mem_nil, or_false] at hk; omega
@@ -302,21 +356,23 @@ theorem dated_yearless_eq (s : DateSpec) (so : DateOffset) (e : DateSpec) (eo : 
   rw [filter_generic s so e eo d hsy hns _ _ b1 b2]
   congr 1
   rw [Bool.eq_iff_iff]
-  have sorted5 : ∀ (F : Int → Int), (∀ k, y - w ≤ k → k ≤ y + w → InY k (F k)) →
+  have sorted5 : ∀ (F : Int → Int), (∀ k, y - w ≤ k → k < y + w → F k < F (k + 1)) →
       [F (y - 2), F (y - 1), F y, F (y + 1), F (y + 2)].Pairwise (· < ·) := by
-    intro F iF
-    have a := inY_lt (show y - 2 < y - 1 by omega) (iF (y - 2) (by omega) (by omega)) (iF (y - 1) (by omega) (by omega))
-    have b := inY_lt (show y - 1 < y by omega) (iF (y - 1) (by omega) (by omega)) (iF y (by omega) (by omega))
-    have c := inY_lt (show y < y + 1 by omega) (iF y (by omega) (by omega)) (iF (y + 1) (by omega) (by omega))
-    have d' := inY_lt (show y + 1 < y + 2 by omega) (iF (y + 1) (by omega) (by omega)) (iF (y + 2) (by omega) (by omega))
+    intro F mF
+    have a := mF (y - 2) (by omega) (by omega)
+    have b := mF (y - 1) (by omega) (by omega)
+    have c := mF y (by omega) (by omega)
+    have d' := mF (y + 1) (by omega) (by omega)
+    rw [show y - 2 + 1 = y - 1 by omega] at a
+    rw [show y - 1 + 1 = y by omega] at b
+    rw [show y + 1 + 1 = y + 2 by omega] at d'
     simp only [List.pairwise_cons, List.mem_cons, List.not_mem_nil, or_false, forall_eq_or_imp, forall_eq,
       false_imp_iff, implies_true, List.Pairwise.nil, and_true]
     omega
-  have sortS := sorted5 S iS
-  have sortE := sorted5 E iE
-  have hgt : d < S (y + 2) := inY_lt (by omega) hd (iS (y + 2) (by omega) (by omega))
-  rw [isOpen_intervalsFromBounds' _ _ d sortS sortE (Or.inr ⟨S (y + 2), by simp, hgt⟩) (by omega),
-    window_pair_iff S E y d w (by omega) hd iS iE, datedOk_range_iff s so e eo d hns]
+  have sortS := sorted5 S hW.monoS
+  have sortE := sorted5 E hW.monoE
+  rw [isOpen_intervalsFromBounds' _ _ d sortS sortE (Or.inr ⟨S (y + 2), by simp, hW.w1⟩) (by omega),
+    window_pair_iff S E y d w (by omega) hW, datedOk_range_iff s so e eo d hns]
   -- the specification
   have cand : ∀ k, k ∈ candidateYears s e (yearSpan so eo) d ↔ y - w ≤ k ∧ k ≤ y + w := by
     intro k; rw [candidateYears_yearless s e _ d hsy hey, mem_yearsNear, hwdef, hydef]
@@ -355,33 +411,22 @@ def dayIv (m dd : Nat) (so eo : DateOffset) (k : Int) : Option (Int × Int) :=
   (ofYmd? k m dd).map (fun f => (shift so f, shift eo f))
 
 theorem singleDayFind_eq (m dd : Nat) (so eo : DateOffset) (d : Int)
-    (hso : so.wday.wf = true) (hss : -100000 ≤ so.days ∧ so.days ≤ 100000)
-    (heo : eo.wday.wf = true) (hes : -100000 ≤ eo.days ∧ eo.days ≤ 100000)
-    (ys : List Int) (hys : ∀ k ∈ ys, 0 ≤ k ∧ k ≤ 20000) :
+    (hso : so.wday.wf = true) (heo : eo.wday.wf = true) (ys : List Int) :
     singleDayFind m dd so eo d ys =
       .ok ((ys.filterMap (dayIv m dd so eo)).find? (fun r => decide (r.2 ≥ d))) := by
   induction ys with
   | nil => rfl
   | cons k ks ih =>
-    have hk := hys k (by simp)
-    have ih' := ih (fun z hz => hys z (by simp [hz]))
     unfold singleDayFind
     simp only [List.filterMap_cons, dayIv]
     cases hf : ofYmd? k m dd with
-    | none => exact ih'
+    | none => exact ih
     | some f =>
-      obtain ⟨_, _, hv, rfl⟩ := ofYmd?_eq_some_iff.1 hf
-      have hin : InY k (ymdRaw k m dd) := by
-        have := ymdRaw_bounds hv; unfold InY; rw [yearStart_succ]; exact this
-      have hr := inYear_range hk hin
-      have a1 : so.apply (ymdRaw k m dd) = .ok (shift so (ymdRaw k m dd)) :=
-        apply_eq_shift so _ hso (by omega) (by rw [minDay_eq]; omega) (by rw [maxDay_eq]; omega)
-      have a2 : eo.apply (ymdRaw k m dd) = .ok (shift eo (ymdRaw k m dd)) :=
-        apply_eq_shift eo _ heo (by omega) (by rw [minDay_eq]; omega) (by rw [maxDay_eq]; omega)
-      simp only [a1, a2, ok_bind, pure_eq_ok, Option.map_some, List.find?_cons]
-      by_cases hge : shift eo (ymdRaw k m dd) ≥ d
+      simp only [apply_eq_shift so hso f, apply_eq_shift eo heo f, ok_bind, pure_eq_ok, Option.map_some,
+        List.find?_cons]
+      by_cases hge : shift eo f ≥ d
       · simp [hge]
-      · simp only [hge, if_false, decide_false]; exact ih'
+      · simp only [hge, if_false, decide_false]; exact ih
 
 /-- `match found { None => false, Some(r) => r.contains(d) }` -/
 def ivContains (d : Int) : Option (Int × Int) → Bool
@@ -479,8 +524,7 @@ theorem dated_single_eq (m dd : Nat) (so eo : DateOffset) (d : Int)
   have hy : 1899 ≤ year d ∧ year d ≤ 9999 := year_window h1 h2
   have hw := yearSpan_bounds so eo hss hes
   have hd : InY (year d) d := inY_year d
-  have hfind := singleDayFind_eq m dd so eo d hso hss heo hes [year d - 1, year d, year d + 1] (by
-    intro k hk; simp only [List.mem_cons, List.not_mem_nil, or_false] at hk; omega)
+  have hfind := singleDayFind_eq m dd so eo d hso heo [year d - 1, year d, year d + 1]
   rw [filter_single none m dd so eo d _ (by simp only []; rw [yearsAround_1_1]; exact hfind)]
   congr 1
   have key := single_find_iff (dayIv m dd so eo) (year d) d hd (by
@@ -520,18 +564,13 @@ theorem dated_single_eq (m dd : Nat) (so eo : DateOffset) (d : Int)
   rw [Bool.eq_iff_iff, key, spec]
 
 /-- Class (b'): a single fixed day WITH a year (`2024 Dec 25`, `2021 Feb 29`, also with offsets on
-both sides): the day of that year, if it exists, and nothing else. -/
+both sides): the day of that year, if it exists, and nothing else.  No condition at all: any day, any
+offsets. -/
 theorem dated_single_year_eq (n m dd : Nat) (so eo : DateOffset) (d : Int)
-    (hn : 1900 ≤ n ∧ n ≤ 9999)
-    (hso : so.wday.wf = true) (hss : -100000 ≤ so.days ∧ so.days ≤ 100000)
-    (heo : eo.wday.wf = true) (hes : -100000 ≤ eo.days ∧ eo.days ≤ 100000)
-    (h1 : dateStart - 1 ≤ d) (h2 : d < dateEnd) :
+    (hso : so.wday.wf = true) (heo : eo.wday.wf = true) :
     MonthdayRange.filter (.date (.fixed (some n) m dd) so (.fixed (some n) m dd) eo) d
       = .ok (datedOk (.fixed (some n) m dd) so (.fixed (some n) m dd) eo d) := by
-  have hy : 1899 ≤ year d ∧ year d ≤ 9999 := year_window h1 h2
-  have hw := yearSpan_bounds so eo hss hes
-  have hfind := singleDayFind_eq m dd so eo d hso hss heo hes [(n : Int)] (by
-    intro k hk; simp only [List.mem_cons, List.not_mem_nil, or_false] at hk; omega)
+  have hfind := singleDayFind_eq m dd so eo d hso heo [(n : Int)]
   rw [filter_single (some n) m dd so eo d _ (by simp only []; exact hfind)]
   congr 1
   rw [Bool.eq_iff_iff]
